@@ -557,6 +557,13 @@ func (s *stubServer) onFrame(c *stubConn, f []byte) {
 				}
 			}
 		}
+		if s.remember && len(s.history) > 0 && s.r.Intn(3) == 0 {
+			// a transaction committed right after the monitor was registered: its
+			// notification is written before the monitor reply (the real server
+			// releases its transaction lock before the reply goes out)
+			s.mutateState()
+			s.sent["notification_before_reply"]++
+		}
 		reply(s.maybeCorrupt(res, s.pReply, "monitor_reply"))
 	case "transact":
 		s.send(c, map[string]any{"id": msg.ID, "result": []any{map[string]any{"error": "not supported", "details": "stub server"}}, "error": nil})
